@@ -211,6 +211,18 @@ func verifFileClose(f *os.File) error {
 
 func verifFileName(f *os.File) string { return verifMF(f).name }
 
+func verifFileTruncate(f *os.File, size int64) error {
+	m := verifMF(f)
+	if m.closed {
+		return verifErrClosed
+	}
+	if size < 0 || size > int64(len(m.data)) {
+		return errors.New("verif: truncate beyond the file (not modelled)")
+	}
+	m.data = m.data[:size]
+	return nil
+}
+
 func verifOsRemove(name string) error {
 	for _, m := range verifFiles {
 		if m.name == name && !m.removed {
